@@ -67,6 +67,11 @@ func (f *vFakeTr) Write(ctx context.Context, msg []byte) error {
 	}
 	return nil
 }
+func (f *vFakeTr) peekWrites() [][]byte {
+	f.mu.Lock()
+	defer f.mu.Unlock()
+	return append([][]byte(nil), f.writes...)
+}
 func (f *vFakeTr) takeWrites() [][]byte {
 	f.mu.Lock()
 	defer f.mu.Unlock()
